@@ -93,13 +93,35 @@ def run(ctx):
                 text = 'pre = P\nrule r\n' + ''.join('  %s = %s\n' % (n, vals[n]) for n in rnd.sample(names, len(names))) + 'build out: r in\n'
                 open(d + '/build.ninja', 'w').write(text); open(d + '/in', 'w').write('x')
                 for args in (['-n'], ['-t', 'commands']):
-                    try: p = subprocess.run([aninja, '-C', d] + args, stdout=subprocess.PIPE, stderr=subprocess.STDOUT, timeout=120, env=dict(os.environ, ASAN_OPTIONS='detect_leaks=0:exitcode=99'))
+                    try: p = subprocess.run([aninja, '-C', d] + args, stdout=subprocess.PIPE, stderr=subprocess.STDOUT, timeout=120, env=dict(os.environ, ASAN_OPTIONS='detect_leaks=0:exitcode=99', UBSAN_OPTIONS='print_stacktrace=1:halt_on_error=1:exitcode=98'))
                     except subprocess.TimeoutExpired:
                         ctx.violation('hang-rule-variable-cycle', 'real binary (ASan) %s: build.ninja =\n%s' % (' '.join(args), text), 'ninja %s does not finish on a manifest whose rule bindings refer to each other' % ' '.join(args)); continue
                     stats['rule-variable-cycles'] = stats.get('rule-variable-cycles', 0) + 1
-                    if p.returncode not in (0, 1):
+                    if p.returncode not in (0, 1) or b'runtime error:' in p.stdout:
                         ctx.violation('crash-rule-variable-cycle', 'real binary (ASan) %s: build.ninja =\n%s' % (' '.join(args), text),
                                       'ninja %s dies with status %d on a manifest whose rule bindings refer to each other (unbounded recursion): %s' % (' '.join(args), p.returncode, p.stdout.decode(errors='replace')[-200:].replace('\n', ' ')))
+        finally: shutil.rmtree(d, ignore_errors=True)
+        # depfile bytes through the LOADER (ImplicitDepLoader::LoadDepFile: target check, "no outputs declared", node creation), not only the
+        # scanner: a `depfile =` statement that is up to date, then the depfile is replaced by damaged content and the scan reads it
+        d = tempfile.mkdtemp(prefix='verif-c13-', dir='/dev/shm')
+        try:
+            open(d + '/build.ninja', 'w').write('rule cc\n  command = cp good.d $out.d && touch $out\n  depfile = $out.d\nbuild out.o: cc in.c\nbuild sub/o2.o: cc in.c\n')
+            open(d + '/in.c', 'w').write('x'); open(d + '/hdr.h', 'w').write('h'); open(d + '/good.d', 'w').write('out.o sub/o2.o: hdr.h\n')
+            env = dict(os.environ, ASAN_OPTIONS='detect_leaks=0:exitcode=99', UBSAN_OPTIONS='print_stacktrace=1:halt_on_error=1:exitcode=98')
+            p = subprocess.run([aninja, '-C', d], stdout=subprocess.PIPE, stderr=subprocess.STDOUT, timeout=120, env=env)
+            fixed = [b'', b':', b': hdr.h\n', b' : hdr.h', b':hdr.h', b'out.o:', b'out.o', b'out.o: \\\n', b'\\\n: a\n', b'out.o: a\nb: c\n', b'a b: c\n', b'out.o: hdr.h\nhdr.h: out.o\n',
+                     b'::', b': :', b'out.o : : x', b'\0', b'out.o: \0', b'x' * 5000 + b': y', b'out.o: ' + b'h ' * 3000, b'$$: $$\n', b'#: #\n', b'\r\n: a\r\n', b'./out.o: ../t13/hdr.h\n']
+            toks = [b'out.o', b':', b' ', b'hdr.h', b'\n', b'\\\n', b'\r\n', b'$$', b'\\ ', b'#', b'sub/o2.o', b'\0', b'\\', b'./', b'../']
+            cases = fixed + [b''.join(rnd.choice(toks) for _ in range(rnd.randrange(1, 9))) for _ in range(40 if q else 600)]
+            for c in (cases if p.returncode == 0 else []):
+                for f in ('out.o.d', 'sub/o2.o.d'): open(os.path.join(d, f), 'wb').write(c)
+                try: p2 = subprocess.run([aninja, '-C', d, '-n'], stdout=subprocess.PIPE, stderr=subprocess.STDOUT, timeout=120, env=env)
+                except subprocess.TimeoutExpired:
+                    ctx.violation('hang-depfile-loader', 'real binary (ASan) -n, depfile of an up-to-date statement = %r\n' % c, 'ninja -n does not finish with depfile content %r' % c[:80]); continue
+                stats['depfile-loader'] = stats.get('depfile-loader', 0) + 1
+                if p2.returncode not in (0, 1) or b'runtime error:' in p2.stdout:
+                    ctx.violation('crash-depfile-loader', 'real binary (ASan) -n, depfile of an up-to-date statement = %r\n' % c,
+                                  'ninja -n dies with status %d when the depfile of an up-to-date statement holds %r: %s' % (p2.returncode, c[:80], p2.stdout.decode(errors='replace')[-200:].replace('\n', ' ')))
         finally: shutil.rmtree(d, ignore_errors=True)
     if 'run_dyndep.cc' in comps:
         dd = [b'ninja_dyndep_version', b' = ', b'1', b'\n', b'build ', b'out', b' | ', b': ', b'dyndep', b'  restat = 1', b'$', b'#c', b'\r\n', b'||', b'in']
